@@ -1,0 +1,79 @@
+//! Verification hooks (only compiled with `--cfg brood_verif`).
+//!
+//! Read-only structural dump of a `World` and accessors for the parts of an entity identifier.
+//! Nothing here changes the behaviour of the library.
+
+extern crate std;
+
+use crate::entity;
+use alloc::vec::Vec;
+
+/// One allocator slot.
+#[derive(Clone, Debug)]
+pub struct SlotDump {
+    /// Current generation of the slot.
+    pub generation: u64,
+    /// Whether the slot holds a location.
+    pub active: bool,
+    /// Index (in `Dump::tables`) of the table the location points at, `-1` if the pointer matches
+    /// no table. `-2` for inactive slots.
+    pub table: i64,
+    /// Row stored in the location (0 for inactive slots).
+    pub row: usize,
+}
+
+/// One archetype table.
+#[derive(Clone, Debug)]
+pub struct TableDump {
+    /// Address of the identifier buffer (the table's key).
+    pub key: usize,
+    /// The identifier bytes.
+    pub bytes: Vec<u8>,
+    /// Number of rows.
+    pub len: usize,
+    /// Entity identifier column, as `(index, generation)`.
+    pub ids: Vec<(usize, u64)>,
+    /// Capacity of the identifier column.
+    pub ids_capacity: usize,
+    /// Capacity of every component column, in registry order of the components present.
+    pub capacities: Vec<usize>,
+}
+
+/// One entry of a lookup table.
+#[derive(Clone, Debug)]
+pub struct LookupDump {
+    /// Table whose identifier buffer the key refers to (`-1`: none; always `-3` for type ids).
+    pub key_table: i64,
+    /// Table the value refers to (`-1`: none).
+    pub value_table: i64,
+}
+
+/// Structural dump of a world.
+#[derive(Clone, Debug, Default)]
+pub struct Dump {
+    /// `World::len`.
+    pub len: usize,
+    /// Allocator slots.
+    pub slots: Vec<SlotDump>,
+    /// Allocator free list, front first.
+    pub free: Vec<usize>,
+    /// Tables in iteration order.
+    pub tables: Vec<TableDump>,
+    /// Entries of the type-id lookup.
+    pub type_lookup: Vec<LookupDump>,
+    /// Entries of the identifier-bytes lookup.
+    pub foreign_lookup: Vec<LookupDump>,
+}
+
+/// The `(index, generation)` of an identifier.
+#[must_use]
+pub fn id_parts(identifier: entity::Identifier) -> (usize, u64) {
+    (identifier.index, identifier.generation)
+}
+
+/// Build an identifier from parts (safe: identifiers are plain data, and are also obtainable
+/// through `Deserialize`).
+#[must_use]
+pub fn id_from_parts(index: usize, generation: u64) -> entity::Identifier {
+    entity::Identifier::new(index, generation)
+}
